@@ -43,6 +43,19 @@ Crits(n, hs, den) ==
      [t |-> "floor", c |-> 0, tn |-> 0, td |-> 1],       \* threshold -ln(1e-6): floored entries are not below it
      [t |-> "dist", c |-> 0, tn |-> 15, td |-> 1] >>     \* above the floor: everything is below it
 
+\* Builder histories for HierarchicalCluster (default: average linkage, 2 clusters): sequences of setter calls
+\* [f |-> "link" | "crit", ...] that end in (link, crits[ci]).  num_clusters and max_distance write the same field.
+DNum == Num(2)
+OpL(lk) == [f |-> "link", link |-> lk, crit |-> DNum]
+OpC(cr) == [f |-> "crit", link |-> "average", crit |-> cr]
+HHists(lk, crits, n) ==
+  LET c1 == 2  cD == n + 3  other == IF lk = "complete" THEN "single" ELSE "complete" IN      \* count 2 ; second threshold
+  << [ci |-> c1, ops |-> <<OpC(crits[c1]), OpL(lk)>>],                                       \* criterion first
+     [ci |-> c1, ops |-> (IF lk = "average" THEN <<>> ELSE <<OpL(lk)>>)],                      \* default criterion (2 clusters) not set
+     [ci |-> cD, ops |-> <<OpL(other), OpC(Num(1)), OpL(lk), OpC(crits[cD])>>],               \* decoys overwritten
+     [ci |-> cD, ops |-> <<OpC(crits[cD]), OpC(Num(n)), OpL(lk), OpC(crits[cD])>>],           \* count then threshold
+     [ci |-> n + 1, ops |-> <<OpC(crits[cD]), OpL(lk), OpC(crits[n + 1])>>] >>               \* threshold then count
+
 HashSeq(s) == SumSeq([i \in 1..Len(s) |-> (2 * i + 1) * s[i]])
 
 LinkNo(lk) == IF lk = "single" THEN 0 ELSE IF lk = "complete" THEN 1 ELSE IF lk = "average" THEN 2 ELSE 3
@@ -53,7 +66,8 @@ ExpCase(n, ut, lk) ==
    inp |-> [src |-> "expmat", dk |-> MatOf(n, ut), qd |-> 4, pts |-> <<>>, pd |-> 1, off |-> 0,
             meth |-> [name |-> "none", en |-> 1, ed |-> 1, c |-> 0, d |-> 0, dd |-> 1],
             link |-> lk, f32 |-> ((HashSeq(ut) \div 7) % 6 = 0),
-            crits |-> Crits(n, [h \in 1..4 |-> Dist(h - 1, 4)], 4)]]
+            crits |-> Crits(n, [h \in 1..4 |-> Dist(h - 1, 4)], 4),
+            hists |-> IF n >= 2 THEN HHists(lk, Crits(n, [h \in 1..4 |-> Dist(h - 1, 4)], 4), n) ELSE <<>>]]
 \* small matrices: every linkage; n >= 4: the four replayable linkages (one in Stride), the others sampled
 KeepExp(n, ut, lk) ==
   LET h == HashSeq(ut) IN
@@ -68,7 +82,8 @@ PtsCase(s, m, lk) ==
   [kind |-> "hier",
    inp |-> [src |-> "pts", dk |-> <<>>, qd |-> 1, pts |-> s, pd |-> 1, off |-> (PtsKey(s) \div 5) % 4, meth |-> m,
             link |-> lk, f32 |-> ((PtsKey(s) \div 7) % 6 = 0),
-            crits |-> Crits(Len(s), [h \in 1..5 |-> Dist(<<0, 1, 2, 4, 9>>[h], m.en)], m.en)]]
+            crits |-> Crits(Len(s), [h \in 1..5 |-> Dist(<<0, 1, 2, 4, 9>>[h], m.en)], m.en),
+            hists |-> HHists(lk, Crits(Len(s), [h \in 1..5 |-> Dist(<<0, 1, 2, 4, 9>>[h], m.en)], m.en), Len(s))]]
 KeepPts(s, m, lk) == (PtsKey(s) + m.en + LinkNo(lk)) % (4 * Stride) = 0
 
 \* linear / polynomial kernels of (half-)integer points with negative coordinates: similarities a/q, some <= 0
@@ -88,7 +103,8 @@ SimCase(s, pd, m, lk) ==
   [kind |-> "hier",
    inp |-> [src |-> "pts", dk |-> <<>>, qd |-> 1, pts |-> s, pd |-> pd, off |-> 0, meth |-> m,
             link |-> lk, f32 |-> ((PtsKey(s) \div 7) % 6 = 0),
-            crits |-> Crits(Len(s), <<LnRat(0, q), LnRat(q \div 4, q), LnRat(q \div 2, q), LnRat(q - 1, q)>>, 1)]]
+            crits |-> Crits(Len(s), <<LnRat(0, q), LnRat(q \div 4, q), LnRat(q \div 2, q), LnRat(q - 1, q)>>, 1),
+            hists |-> HHists(lk, Crits(Len(s), <<LnRat(0, q), LnRat(q \div 4, q), LnRat(q \div 2, q), LnRat(q - 1, q)>>, 1), Len(s))]]
 
 Init ==
   \/ \E n \in 1..MaxN : \E ut \in UTs(n) : \E lk \in ExactLinks \cup {OtherLinks[q] : q \in 1..3} :
